@@ -40,6 +40,10 @@ LEAVES = ('int', 'str', 'NoneType', 'datetime')
 ITERATOR_KINDS = ('generator', 'map', 'islice', 'OrderingIterable')
 
 
+_UNROLLED = {}
+_UNROLLED_KEEP = []     # keeps the loop nodes (and so their ids) alive
+
+
 class Shape:
     __slots__ = ('kind', 'kids', 'origin')
 
@@ -155,6 +159,8 @@ class Interp:
                 self.engine = p
         self.option_funcs = {}
         self.passthrough = []   # kinds returned as the identical object
+        self.outer = None       # the interpreter of the converter proper,
+        #                         when this one reads a helper of it
 
     # -- options ------------------------------------------------------------
     def option_of(self, call):
@@ -394,7 +400,36 @@ class Interp:
             arg = self.value(e.args[0], shape, env)
             if isinstance(arg, tuple) and arg[0] == 'pair':
                 arg = Shape('tuple', [arg[1], arg[2]])
-            return self.convert(arg)
+            return (self.outer or self).convert(arg)
+        # a module-level helper of the converter that is handed the object
+        # (and the recursion): its body is read like a branch of the
+        # converter
+        if isinstance(f, ast.Name) and e.args and not e.keywords and \
+                isinstance(e.args[0], ast.Name) and \
+                e.args[0].id == self.obj and f.id not in env:
+            h = self.mod.functions.get(f.id)
+            if h is not None and h.parent_func is None and \
+                    h.cls is None and len(h.params()) == len(e.args):
+                sub = Interp(self.repo, h, self.facts, self.opts)
+                sub.outer = self.outer or self
+                for p, a in list(zip(h.params(), e.args))[1:]:
+                    if isinstance(a, ast.Name) and a.id in self.rec_names:
+                        sub.rec_names.add(p)
+                    elif isinstance(a, ast.Name) and a.id == self.limit:
+                        sub.limit = p
+                    elif isinstance(a, ast.Name) and a.id == self.engine:
+                        sub.engine = p
+                    else:
+                        raise AnalysisError(
+                            'helper %s of the converter is handed %s' % (
+                                f.id, model.norm(a)))
+                sub.rec_names.discard(h.name)
+                out = sub.block(model.strip_docstring(h.node.body), shape,
+                                {})
+                if out is None:
+                    raise AnalysisError('helper %s returns nothing' % f.id)
+                (self.outer or self).passthrough.extend(sub.passthrough)
+                return out
         if isinstance(f, ast.Name) and f.id == self.limit:
             return self.value(e.args[0], shape, env)
         if isinstance(f, ast.Name) and isinstance(env.get(f.id), tuple) \
@@ -513,6 +548,35 @@ class Interp:
                     isinstance(st.targets[0], ast.Name):
                 env[st.targets[0].id] = self.value(st.value, shape, env)
                 continue
+            if isinstance(st, ast.For) and (
+                    id(st) in _UNROLLED or self._table_rows(st) is not None):
+                # for kind, convert in TABLE: ... -- one copy of the body
+                # per row of the constant table
+                import copy
+                cache = _UNROLLED.get(id(st))
+                if cache is None:
+                    names, rows = self._table_rows(st)
+                    cache = []
+                    for row in rows:
+                        sub_env = dict(zip(names, row))
+
+                        class S(ast.NodeTransformer):
+                            def visit_Name(self, n):
+                                if n.id in sub_env and isinstance(
+                                        n.ctx, ast.Load):
+                                    return ast.copy_location(
+                                        copy.deepcopy(sub_env[n.id]), n)
+                                return n
+                        cache.append([ast.fix_missing_locations(S().visit(
+                            copy.deepcopy(b))) for b in st.body])
+                    _UNROLLED[id(st)] = cache
+                    _UNROLLED_KEEP.append(st)
+                r = None
+                for body in cache:
+                    r = self.block(body, shape, env)
+                    if r is not None:
+                        return r
+                continue
             if isinstance(st, ast.For):
                 src = self.value(st.iter, shape, env)
                 for item in self.iterate(src):
@@ -561,6 +625,33 @@ class Interp:
             raise AnalysisError('unsupported statement %s in %s' % (
                 model.norm(st)[:60], self.fi.key))
         return None
+
+    def _table_rows(self, st):
+        """(target names, rows of expressions) when the loop ranges over a
+        module-level constant tuple of same-length tuples of names."""
+        it = st.iter
+        if not isinstance(it, ast.Name) or it.id == self.obj:
+            return None
+        node = self.mod.constants.get(it.id)
+        if not isinstance(node, (ast.Tuple, ast.List)) or not node.elts:
+            return None
+        names = [st.target.id] if isinstance(st.target, ast.Name) else (
+            [t.id for t in st.target.elts] if isinstance(
+                st.target, ast.Tuple) and all(
+                isinstance(t, ast.Name) for t in st.target.elts) else None)
+        if names is None:
+            return None
+        rows = []
+        for r in node.elts:
+            vals = [r] if len(names) == 1 else (
+                list(r.elts) if isinstance(r, (ast.Tuple, ast.List)) and
+                len(r.elts) == len(names) else None)
+            if vals is None or not all(isinstance(
+                    v, (ast.Name, ast.Attribute, ast.Constant, ast.Tuple))
+                    for v in vals):
+                return None
+            rows.append(vals)
+        return names, rows
 
     def culprit(self, out):
         """The innermost converted value that makes `out` unhashable, as
